@@ -208,6 +208,10 @@ def gen_derive(rng, w, t):
         # cvxopt.mul / max / min with three arguments or with one list argument
         cands = [k for k in names if w.o(k)['M'].size == (m, n) or w.o(k)['M'].size == (1, 1)]
         args = [{'k': 'ref', 'name': t}]
+        if rng.random() < 0.25:
+            # a reduction over a single operand is a copy of it: mul(A), mul([A]), max([A]), min([A])
+            fn = rng.choice(['mul', 'max', 'min'])
+            return ['derive', nm, 'nary', t, fn, args, True if fn != 'mul' else bool(rng.random() < 0.5)]
         for _ in range(rng.randint(1, 2)):
             if rng.random() < 0.25:
                 args.append({'k': 'num', 'v': mkval(rng.choice(['i', 'd']), rng)})
